@@ -98,6 +98,7 @@ type mgrStep struct {
 	Trans     []vk.Entry
 	Next      appState
 	Panic     string
+	PanicSite string
 	MemBefore string
 	HostsBefore string
 	FailedBefore map[string]int64
@@ -327,7 +328,7 @@ func mgrRun(in mgrIn) mgrOut {
 	}
 	if in.OtherManager {
 		d.mu.Lock()
-		d.lockOwner = "h0"
+		d.sh.lockOwner = "h0"
 		d.mu.Unlock()
 	}
 	for k := 0; k < in.Iter; k++ {
@@ -401,10 +402,10 @@ func mgrRun(in mgrIn) mgrOut {
 				d.mu.Unlock()
 			case "otherlock": // another process takes / releases the manager lock
 				d.mu.Lock()
-				if d.lockOwner == "h0" {
-					d.lockOwner = ""
+				if d.sh.lockOwner == "h0" {
+					d.sh.lockOwner = ""
 				} else {
-					d.lockOwner = "h0"
+					d.sh.lockOwner = "h0"
 				}
 				d.mu.Unlock()
 			case "rmfile":
@@ -495,6 +496,7 @@ func mgrRun(in mgrIn) mgrOut {
 			defer func() {
 				if r := recover(); r != nil {
 					st.Panic = fmt.Sprint(r)
+					st.PanicSite = vPanicSite()
 				}
 			}()
 			switch cur {
@@ -523,7 +525,7 @@ func mgrRun(in mgrIn) mgrOut {
 		st.TreeAfter = mgrTree(d)
 		st.WorldAfter = snap()
 		d.mu.Lock()
-		st.LockHeld = d.lockOwner == mgr
+		st.LockHeld = d.sh.lockOwner == mgr
 		d.mu.Unlock()
 		out.Steps = append(out.Steps, st)
 		if st.Panic != "" {
